@@ -754,7 +754,7 @@ def rw_closure_specs(toks, specs, rep, qual):
             groups.setdefault(tuple(params_of_anchor(spec[0]) or ["?"]), []).append(spec)
         for want, specs_g in groups.items():
             cands = [i for i in free if list(want) == params_of_closure(i)]
-            if want != ("?",) and len(cands) == len(specs_g):
+            if CLOSURE_FALLBACK[0] and want != ("?",) and len(cands) == len(specs_g):
                 for i, (text, nth, retdecl, ens) in zip(cands, specs_g):
                     resolved.append((i, retdecl, ens)); free.remove(i)
                     rep.append(("hint", f"closure {text!r} #{nth}: anchor text gone, contract attached to the uncontracted closure with the same parameters (closure {i})"))
@@ -883,6 +883,7 @@ class Extract:
     rename: str = ""
 
 
+CLOSURE_FALLBACK = [True]   # re-attach a closure contract whose anchor text is gone to the closure with the same parameters
 PATH_CANARIES = [False]     # thorough tier: reachability canaries after every statement of the extracted code (tools/canary.py)
 CANARY_COUNT = [0]
 
